@@ -193,6 +193,7 @@ FlatInner(f, v, k) == CASE f = "just" -> RLeaf("just", v)
                         [] f = "pair" -> [RLeaf("from_iter", 0) EXCEPT !.items = <<v, v + 1>>]
                         [] f = "err1" -> IF v = 1 THEN RLeaf("error", 8) ELSE RLeaf("just", v)
                         [] f = "probe2" -> RLeaf("probe", 2)
+                        [] f = "probe2map" -> [RLeaf("map", 0) EXCEPT !.f = "inc", !.in = <<RLeaf("probe", 2)>>]
                         [] OTHER -> RLeaf("empty", 0)
 RefInners(f, its, k, arr, acc) ==      \* the k-th outer item subscribes its inner observable at that item's time, as instance k
   IF k > Len(its) THEN acc ELSE RefInners(f, its, k + 1, arr, Append(acc, Ref(FlatInner(f, its[k].v, k), its[k].t, k, arr)))
@@ -240,8 +241,8 @@ Ref(t, t0, m, arr) ==
 RECURSIVE LeafIds(_), NoSubj(_), ResubDepth(_), AnyProbe2(_)
 LeafIds(t) == IF t.op \in {"probe", "cold"} THEN <<t.a>> ELSE IF t.in = <<>> THEN <<>> ELSE
               LET RECURSIVE Cat(_) Cat(i) == IF i > Len(t.in) THEN <<>> ELSE LeafIds(t.in[i]) \o Cat(i + 1) IN Cat(1)
-Resubscriber(t) == t.op \in {"retry", "retry_when"} \/ (t.op = "flat_map" /\ t.f = "probe2") \/ (t.op = "on_error_resume_next" /\ t.f = "probe2")
-UsesProbe2(t) == (t.op = "flat_map" /\ t.f = "probe2") \/ (t.op = "on_error_resume_next" /\ t.f = "probe2")
+Resubscriber(t) == t.op \in {"retry", "retry_when"} \/ (t.op = "flat_map" /\ t.f \in {"probe2", "probe2map"}) \/ (t.op = "on_error_resume_next" /\ t.f = "probe2")
+UsesProbe2(t) == (t.op = "flat_map" /\ t.f \in {"probe2", "probe2map"}) \/ (t.op = "on_error_resume_next" /\ t.f = "probe2")
 \* (switch_on_next is specific to this crate and no listed property defines it: it is exercised by C01/C05/C06/C07/C17 only)
 NoSubj(t) == t.op \notin {"subject", "rawsubject", "conn", "ready_set_go", "switch_on_next"} /\ \A i \in 1..Len(t.in) : NoSubj(t.in[i])
 ResubDepth(t) == LET d == IF t.in = <<>> THEN 0 ELSE LET S == { ResubDepth(t.in[i]) : i \in 1..Len(t.in) } IN CHOOSE x \in S : \A y \in S : y <= x
